@@ -236,7 +236,12 @@ def check_text(labels, level=2):
                     probs.append(("C01/tokenizer/labels-differ", "Tokenizer(%r).get_name(origin=%s) gave %r expected %r" % (
                         t + d, o, got, exp)))
                 if d == " x\n":
-                    nxt = tok.get()
+                    try:
+                        nxt = tok.get()
+                    except Exception as e:
+                        probs.append(("C01/tokenizer/next-token", "after the name in %r reading the next token raised %s: %s" % (
+                            t + d, type(e).__name__, e)))
+                        continue
                     if not (nxt.is_identifier() and nxt.value == "x"):
                         probs.append(("C01/tokenizer/next-token", "after the name in %r the next token is %r" % (t + d, nxt)))
     if level >= 2:
